@@ -655,76 +655,99 @@ def validity_tie(ctx):
     def add(op, out, tol=1e-11):
         ops.append('C10 nz ' + op); want.append(np.asarray(out)); tols.append(tol)
     seeds = [ctx.seed * 100 + i for i in range(2 if ctx.quick() else 8)]
+    failed = []
+    def guarded(tag, f):
+        try:
+            f()
+        except Exception as e:     # the generator no longer draws / factorises as the model of its last lines expects
+            failed.append((tag, f'{type(e).__name__}: {e}'[:160]))
     for s in seeds:
-        for d in (1, 3, 6):
-            for tc in (True, False):
+        def blk0(s=s):
+            for d in (1, 3, 6):
+                for tc in (True, False):
+                    g = RecGen(s)
+                    with Capture() as c:
+                        out = R.rand_haar_state(d, tag_complex=tc, seed=g)
+                    raw = c.outs('_random_complex')[-1] if tc else g.log[-1][1]
+                    add(f'vec {d} {cbits(raw)}', out)
+                for size in (None, (2, 3)):
+                    g = RecGen(s)
+                    out = R.rand_n_sphere(d, size=size, seed=g)
+                    raw = g.log[0][1]
+                    for row_raw, row_out in zip(raw.reshape(-1, d), np.asarray(out).reshape(-1, d)):
+                        add(f'vec {d} {cbits(row_raw)}', row_out)
+                    g = RecGen(s)
+                    out = R.rand_n_ball(d, size=size, seed=g)
+                    raw, u = g.log[0][1], g.log[1][1]
+                    for row_raw, ui, row_out in zip(raw.reshape(-1, d), u.reshape(-1), np.asarray(out).reshape(-1, d)):
+                        add(f'ball {d} {cbits(row_raw)} {cbits([ui])}', row_out)
+        guarded('block0', blk0)
+        def blk1(s=s):
+            for d in (1, 2, 4):
+                with Capture() as c:
+                    out = R.rand_haar_unitary(d, seed=RecGen(s))
+                Q, Rm = c.outs('qr')[0]
+                add(f'signfix {d} {cbits(Q)} {cbits(np.diag(Rm))}', out, 0.0)
+        guarded('block1', blk1)
+        def blk2(s=s):
+            for d, k in ((2, None), (3, 1), (3, 2), (4, None)):
+                kk = d if k is None else k
+                with Capture() as c:
+                    out = R.rand_density_matrix(d, k=k, kind='haar', seed=RecGen(s))
+                add(f'dm {d} {kk} {cbits(c.outs("_random_complex")[0])}', out)
+                with Capture() as c:
+                    out = R.rand_density_matrix(d, k=k, kind='bures', seed=RecGen(s))
+                add(f'dmb {d} {kk} {cbits(c.outs("rand_haar_unitary")[0])} {cbits(c.outs("_random_complex")[0])}', out)
+        guarded('block2', blk2)
+        def blk3(s=s):
+            for d, m in ((2, 2), (3, 4)):
                 g = RecGen(s)
                 with Capture() as c:
-                    out = R.rand_haar_state(d, tag_complex=tc, seed=g)
-                raw = c.outs('_random_complex')[-1] if tc else g.log[-1][1]
-                add(f'vec {d} {cbits(raw)}', out)
-            for size in (None, (2, 3)):
+                    out = R.rand_povm(d, m, seed=g)
+                B = g.log[0][1] + 1j * g.log[1][1]
+                evl, evc = c.outs('eigh')[0]
+                add(f'povm {d} {m} {cbits(B)} {cbits(evl)} {cbits(evc)}', out, 1e-10)
+                add(f'povmsum {d} {m} {cbits(B)}', c.ins('eigh')[0][0], 1e-11)
+        guarded('block3', blk3)
+        def blk4(s=s):
+            for (nt, di, do, tc) in ((1, 2, 2, True), (3, 2, 3, True), (2, 3, 2, False)):
                 g = RecGen(s)
-                out = R.rand_n_sphere(d, size=size, seed=g)
+                with Capture() as c:
+                    out = R.rand_kraus_op(nt, di, do, tag_complex=tc, seed=g)
                 raw = g.log[0][1]
-                for row_raw, row_out in zip(raw.reshape(-1, d), np.asarray(out).reshape(-1, d)):
-                    add(f'vec {d} {cbits(row_raw)}', row_out)
-                g = RecGen(s)
-                out = R.rand_n_ball(d, size=size, seed=g)
-                raw, u = g.log[0][1], g.log[1][1]
-                for row_raw, ui, row_out in zip(raw.reshape(-1, d), u.reshape(-1), np.asarray(out).reshape(-1, d)):
-                    add(f'ball {d} {cbits(row_raw)} {cbits([ui])}', row_out)
-        for d in (1, 2, 4):
-            with Capture() as c:
-                out = R.rand_haar_unitary(d, seed=RecGen(s))
-            Q, Rm = c.outs('qr')[0]
-            add(f'signfix {d} {cbits(Q)} {cbits(np.diag(Rm))}', out, 0.0)
-        for d, k in ((2, None), (3, 1), (3, 2), (4, None)):
-            kk = d if k is None else k
-            with Capture() as c:
-                out = R.rand_density_matrix(d, k=k, kind='haar', seed=RecGen(s))
-            add(f'dm {d} {kk} {cbits(c.outs("_random_complex")[0])}', out)
-            with Capture() as c:
-                out = R.rand_density_matrix(d, k=k, kind='bures', seed=RecGen(s))
-            add(f'dmb {d} {kk} {cbits(c.outs("rand_haar_unitary")[0])} {cbits(c.outs("_random_complex")[0])}', out)
-        for d, m in ((2, 2), (3, 4)):
-            g = RecGen(s)
-            with Capture() as c:
-                out = R.rand_povm(d, m, seed=g)
-            B = g.log[0][1] + 1j * g.log[1][1]
-            evl, evc = c.outs('eigh')[0]
-            add(f'povm {d} {m} {cbits(B)} {cbits(evl)} {cbits(evc)}', out, 1e-10)
-            add(f'povmsum {d} {m} {cbits(B)}', c.ins('eigh')[0][0], 1e-11)
-        for (nt, di, do, tc) in ((1, 2, 2, True), (3, 2, 3, True), (2, 3, 2, False)):
-            g = RecGen(s)
-            with Capture() as c:
-                out = R.rand_kraus_op(nt, di, do, tag_complex=tc, seed=g)
-            raw = g.log[0][1]
-            z0 = raw.astype(np.float64, copy=False).view(np.complex128) if tc else raw
-            add(f'kraus {nt} {do} {di} {cbits(z0)} {cbits(c.outs("inv")[0])}', out, 1e-10)
-        for d in (2, 3):
-            for tc in (True, False):
+                z0 = raw.astype(np.float64, copy=False).view(np.complex128) if tc else raw
+                add(f'kraus {nt} {do} {di} {cbits(z0)} {cbits(c.outs("inv")[0])}', out, 1e-10)
+        guarded('block4', blk4)
+        def blk5(s=s):
+            for d in (2, 3):
+                for tc in (True, False):
+                    g = RecGen(s)
+                    with Capture() as c:
+                        out = R.rand_hermitian_matrix(d, eig=(-1.0, 2.0), tag_complex=tc, seed=g)
+                    evl = g.log[0][1]
+                    evc = c.outs('rand_special_orthogonal_matrix')[0]
+                    add(f'herm {d} {cbits(evc)} {cbits(evl)}', out, 1e-11)
+        guarded('block5', blk5)
+        def blk6(s=s):
+            for (di, do, rank) in ((2, 2, None), (2, 3, 2)):
                 g = RecGen(s)
                 with Capture() as c:
-                    out = R.rand_hermitian_matrix(d, eig=(-1.0, 2.0), tag_complex=tc, seed=g)
-                evl = g.log[0][1]
-                evc = c.outs('rand_special_orthogonal_matrix')[0]
-                add(f'herm {d} {cbits(evc)} {cbits(evl)}', out, 1e-11)
-        for (di, do, rank) in ((2, 2, None), (2, 3, 2)):
-            g = RecGen(s)
-            with Capture() as c:
-                out = R.rand_choi_op(di, do, rank=rank, seed=g)
-            r = di * do if rank is None else rank
-            G = g.log[0][1] + 1j * g.log[1][1]
-            evl, evc = c.outs('eigh')[0]
-            add(f'choi {di} {do} {r} {cbits(G)} {cbits(evl)} {cbits(evc)}', out, 1e-10)
-            add(f'choipt {di} {do} {r} {cbits(G)}', c.ins('eigh')[0][0], 1e-11)
-        for d in (2, 5):
-            g = RecGen(s)
-            out = R.rand_adjacent_matrix(d, seed=g)
-            raw = g.log[0][1]
-            ops.append(f'C10 nz adj {d} ' + ';'.join(str(int(x)) for x in raw.reshape(-1)))
-            want.append(';'.join(str(int(x)) for x in np.asarray(out).reshape(-1))); tols.append(None)
+                    out = R.rand_choi_op(di, do, rank=rank, seed=g)
+                r = di * do if rank is None else rank
+                G = g.log[0][1] + 1j * g.log[1][1]
+                evl, evc = c.outs('eigh')[0]
+                add(f'choi {di} {do} {r} {cbits(G)} {cbits(evl)} {cbits(evc)}', out, 1e-10)
+                add(f'choipt {di} {do} {r} {cbits(G)}', c.ins('eigh')[0][0], 1e-11)
+        guarded('block6', blk6)
+        def blk7(s=s):
+            for d in (2, 5):
+                g = RecGen(s)
+                out = R.rand_adjacent_matrix(d, seed=g)
+                raw = g.log[0][1]
+                ops.append(f'C10 nz adj {d} ' + ';'.join(str(int(x)) for x in raw.reshape(-1)))
+                want.append(';'.join(str(int(x)) for x in np.asarray(out).reshape(-1))); tols.append(None)
+
+        guarded('block7', blk7)
     model = common.run_model(ops)
     worst = 0.0
     for op, w, tol, m in zip(ops, want, tols, model):
@@ -747,6 +770,8 @@ def validity_tie(ctx):
             ctx.agree(short, short)
         else:
             ctx.disagree(short, f'max |model - impl| = {err:.3e}', f'tolerance {tol}')
+    for tag, why in failed:
+        ctx.disagree(f'C10 nz capture {tag}', 'the model of the last lines applies', f'capture failed: {why}')
     ctx.extra['validity_tie_ops'] = len(ops)
     ctx.extra['validity_tie_max_abs_err'] = worst
     ctx.assumptions.append('validity tie: model (binary64, left-to-right sums) vs numpy on the same raw draws, tolerance 1e-11 (1e-10 after an inverse square root), '
